@@ -551,7 +551,7 @@ pub fn main(args: &Args) {
     rep.absorb(t);
     rep.set("types", json!(n_types));
     rep.rule = format!(
-        "{n_types} types built as constructor spines (depth {}) over every syn::Type form valid in field position (paths with generic args, associated-type bindings and constraints, parenthesised Fn sugar, const args; references, pointers, slices, arrays incl. parameter names in the length expression, tuples, bare fns incl. for<'z>, trait objects, impl Trait, parens, never, infer, type macros, qualified self in both roles) with T/U/X and 'a/'b planted at known use and non-use positions (path tails, global paths, macro bodies, const expressions); for each: all 8 query sets x both purposes for type parameters, all 4 for lifetimes; collections (Vec, iterators, Option, syn::Fields, syn::Data struct/enum/union, ast::Fields) must give the union. Derive half: generic receivers (3 generics heads x 2 where-clauses) whose three fields take types from the depth-1 grammar under all 8 skip / flatten patterns, and FromMeta enums with skipped variants / fields, through all six derives: the impl repeats the parameters (defaults stripped) and the where-clause and adds `::darling::FromMeta` to exactly the declared type parameters used by parsed fields. distinct_nontrivial = types that use at least one parameter.",
+        "{n_types} types built as constructor spines (depth {}) over every syn::Type form valid in field position (paths with generic args, associated-type bindings and constraints, parenthesised Fn sugar, const args; references, pointers, slices, arrays incl. parameter names in the length expression, tuples, bare fns incl. for<'z>, trait objects, impl Trait, parens, never, infer, type macros, qualified self in both roles) plus structured large types (nests to depth 33, tuples / argument / bound lists / paths of 5..33 members) with T/U/X and 'a/'b planted at known use and non-use positions (path tails, global paths, macro bodies, const expressions); for each: all 8 query sets x both purposes for type parameters, all 4 for lifetimes; collections (Vec, iterators, Option, syn::Fields, syn::Data struct/enum/union, ast::Fields) must give the union. Derive half: generic receivers (3 generics heads x 2 where-clauses) whose three fields take types from the depth-1 grammar under all 8 skip / flatten patterns, and FromMeta enums with skipped variants / fields, through all six derives: the impl repeats the parameters (defaults stripped) and the where-clause and adds `::darling::FromMeta` to exactly the declared type parameters used by parsed fields. distinct_nontrivial = types that use at least one parameter.",
         if thorough { "<= 2, <= 3 on a reduced alphabet" } else { "<= 1" }
     );
     rep.assumptions = vec!["use-sets are known by construction of each generated type".into()];
